@@ -648,3 +648,14 @@ def d17_shape(G, t: Tree, pats, flags: int, r: str) -> bool:
         if os.path.lexists(full) and not os.path.isdir(full):
             return maxsegs > (j - start)
     return True      # nothing on the way is a non-directory: a different kind of non-existence; keep the old attribution
+
+def gen_pair(R, G, t: Tree):
+    """two patterns that make the walker list ONE directory twice, once for directories only and once for everything, in both
+    orders, or start from the same literal once as a directory and once as anything (added after seeded changes C05g / C13g: a
+    per-call cache of directory listings keyed by the directory alone, and a cached root scan that kept the first pattern's
+    directories-only filter)"""
+    names = sorted(t.names) or ['a']
+    d, f = G.escape(R.choice(names)), G.escape(R.choice(names))
+    fam = [['*/', '*'], ['*', '*/'], [d + '/*/', d + '/*'], [d + '/*', d + '/*/'], ['*/*', '*'], [d + '/', f], [f, d + '/'], ['*/*/', '*/*'],
+           ['**/', '**'], [d + '/**/', d + '/**'], ['*/' + f, '*'], [d + '/', d], [d, d + '/']]
+    return R.choice(fam)
